@@ -304,3 +304,8 @@ def run(repo, rep):
     # by its own printer every time - the visited bookkeeping treats it like any other value (interpreted wrapper model)
     from . import wrapper_model
     rep.floor('C08.e', wrapper_model.run(repo, rep, 'C08'), 1)
+    # C08.f: nothing printed is remembered between values: a cache keyed by == (a str subclass instance equals and hashes like the
+    # plain string) hands one value the text of the other
+    from . import shared_state as SS
+    rep.floor('C08.f', SS.caches_in_cone(repo, rep, 'C08.f', 'an instance of a subclass compares and hashes equal to the built-in value, so a '
+                                         'remembered document is shared between them and the class is lost (or invented)'), 5)
